@@ -111,11 +111,20 @@ EMPTY = {"exc": "", "off": False, "choice": "", "n": 12, "gram": [[0] * 3] * 3, 
 def drive_trig(rec):
     n, u = rec["n"], rec["u"]
     cr = xtal.build_crystal(rec)
+    try:
+        start = state_rec(cr, n, u)
+    except Exception as e:                 # an exception of the implementation is an observation
+        start = None
+        start_exc = type(e).__name__
     t = {"k": "trig", "zs": [s["z"] for s in rec["asym"]], "target": rec["target"],
-         "start": state_rec(cr, n, u), "after": dict(EMPTY), "back": dict(EMPTY),
+         "start": start if start is not None else dict(EMPTY, choice=rec["choice"], n=n, gram=rec["gram"], pts=[s["p"] for s in rec["asym"]]),
+         "after": dict(EMPTY), "back": dict(EMPTY),
          "meta": {"recipe": rec, "source": "random", "nontrivial": True,
                   "impl_call": "Crystal(%d %r).choose_trigonal_lattice(%r) and back" % (rec["number"], rec["choice"], rec["target"])}}
     n2 = 3 * n if rec["target"] == "H" else n
+    if start is None:
+        t["after"]["exc"] = "StartState:" + start_exc
+        return t
     try:
         cr2 = xtal.build_crystal(rec)
         if rec.get("warm"):
